@@ -16,8 +16,11 @@ from vp.refs import bptc_ref, gf2
 LEVEL = "exploration"
 RULE = (
     "(32,11): all 2^11 messages x {even, odd} column parity (complete enumeration, distinct by construction).  (68,28): "
-    "zero word, all-ones, the 28 unit messages and Hypothesis-drawn 28-bit messages.  (128,72): zero word, all-ones, the 72 "
-    "unit messages, a directed set built by construction to hit every checksum value 0..30 (eight random octets + one octet "
+    "zero word, all-ones, the 28 unit messages, a deterministic boundary set (each octet group all-ones / all but one group "
+    "ones, complements of the unit messages, alternating patterns, messages solved by construction so that the CRC-8 is "
+    "0x00, 0x01, 0x80, 0xFF, ... over eight fixed backgrounds) and Hypothesis-drawn 28-bit messages.  (128,72): zero word, "
+    "all-ones, the 72 unit messages, the same deterministic boundary set (checksum solved to 0, 1, 16, 30, 15, 29 over seven "
+    "fixed backgrounds), a directed set built by construction to hit every checksum value 0..30 (eight random octets + one octet "
     "solved for the target; all-0xFF / carry-heavy octets) and Hypothesis-drawn 72-bit messages.  linearity: Hypothesis "
     "pairs (a,b) per code.  A case is (code, message[, parity]); distinct by hash.  Non-trivial: non-zero message; for "
     "(128,72) additionally the 5-bit checksum is not a bit palindrome (a palindromic checksum cannot see the order of the "
@@ -327,15 +330,77 @@ def _directed_128(ctx: Ctx, per_target: int):
     return out
 
 
+def _groups(code):
+    """octet groups of a message, MSB first: nine octets for (128,72); 8+8+8+4 bits for (68,28)"""
+    k = CODES[code][0]
+    out, hi = [], k
+    while hi > 0:
+        lo = max(0, hi - 8)
+        out.append(((1 << (hi - lo)) - 1) << lo)
+        hi = lo
+    return out
+
+
+def _solve_cs5(octets, pos, target):
+    """replace octet `pos` by the smallest and the largest value that make the octet sum congruent to target mod 31"""
+    rest = sum(octets) - octets[pos]
+    cands = [v for v in range(256) if (rest + v) % 31 == target]
+    res = []
+    for v in (cands[0], cands[-1]):
+        o = list(octets)
+        o[pos] = v
+        res.append(int.from_bytes(bytes(o), "big"))
+    return res
+
+
+def _solve_crc8(high20: int, target: int) -> int:
+    """28-bit message with the given upper 20 bits whose CRC-8 is `target`: the map low octet -> CRC is a bijection
+    (x^8 is invertible modulo G), found by trying the 256 low octets against the reference CRC"""
+    for low in range(256):
+        v = (high20 << 8) | low
+        if bptc_ref.crc8(gf2.int_to_bits(v, 28)) == target:
+            return v
+    raise AssertionError("CRC-8 low-octet map is not a bijection")
+
+
+def _boundary(code, ctx: Ctx):
+    """deterministic boundary pass (identical at every seed): all-ones, each octet all-ones, all but one octet ones,
+    complements of the unit messages, alternating patterns, and messages whose checksum is each extreme value
+    (0, 1, top bit only, maximum) built by construction over several fixed backgrounds."""
+    k = CODES[code][0]
+    full = (1 << k) - 1
+    out = [full, full ^ 1, full ^ (1 << (k - 1)), int("a" * 18, 16) & full, int("5" * 18, 16) & full, 1, 1 << (k - 1)]
+    for g in _groups(code):
+        out += [g, full ^ g]
+    out += [full ^ (1 << i) for i in range(k)]
+    if code == "128_72":
+        backgrounds = [[0] * 9, [0xFF] * 9, [0x80] * 9, [0x01] * 9, [0xAA, 0x55] * 4 + [0xAA], [0xFF] * 4 + [0] * 5, [0] * 5 + [0xFF] * 4]
+        for target in (0, 1, 16, 30, 15, 29):
+            for bg in backgrounds:
+                for pos in (0, 4, 8):
+                    out += _solve_cs5(bg, pos, target)
+    elif code == "68_28":
+        highs = [0, (1 << 20) - 1, 1 << 19, 1, 0xAAAAA, 0x55555, 0xFFF00, 0x000FF]
+        for target in (0x00, 0x01, 0x80, 0xFF, 0x7F, 0xFE, 0xAA, 0x55):
+            for h in highs:
+                out.append(_solve_crc8(h, target))
+    seen, uniq = set(), []
+    for v in out:
+        if v not in seen:
+            seen.add(v)
+            uniq.append(v)
+    return uniq
+
+
 def _drv_sampled(code, n_quick, n_thorough, directed=None):
     def drv(ctx: Ctx, sub: SubCheck):
         _preimport()
         from hypothesis import strategies as st
 
         k = CODES[code][0]
-        fixed = [("basis", v) for v in _basis(code)]
+        fixed = [("basis", v) for v in _basis(code)] + [("boundary", v) for v in _boundary(code, ctx)]
         if directed:
-            fixed += [("directed", v) for v in directed(ctx, ctx.pick(4, 60))]
+            fixed += [("directed", v) for v in directed(ctx, ctx.pick(25, 400))]
 
         def work(chunk, t: Tally):
             for src, v in chunk:
@@ -350,7 +415,7 @@ def _drv_sampled(code, n_quick, n_thorough, directed=None):
         def hyp(shard, t: Tally):
             ctx.hypothesis(sub.name, strat, oracle_code, ctx.pick(n_quick, n_thorough), tally=t, shard=shard, record=_record_code(sub.name))
 
-        ctx.shards(hyp, list(range(16)))
+        ctx.shards(hyp, list(range(ctx.pick(16, 32))))
 
     return drv
 
@@ -370,19 +435,20 @@ def drv_linearity(ctx: Ctx, sub: SubCheck):
         a, b = int(c["a"], 16), int(c["b"], 16)
         t.case(sub.name, key=c, nontrivial=bool(a and b and (a ^ b)), cls=c["code"])
 
-    shards = [("128_72", i) for i in range(7)] + [("68_28", i) for i in range(7)] + [("32_11", i) for i in range(2)]
+    r = ctx.pick(1, 2)
+    shards = [("128_72", i) for i in range(7 * r)] + [("68_28", i) for i in range(7 * r)] + [("32_11", i) for i in range(2 * r)]
 
     def hyp(it, t: Tally):
         code, i = it
-        ctx.hypothesis(sub.name, strat_for(code), oracle_linearity, ctx.pick(40, 1500), tally=t, shard=f"{code}/{i}", record=rec)
+        ctx.hypothesis(sub.name, strat_for(code), oracle_linearity, ctx.pick(600, 8000), tally=t, shard=f"{code}/{i}", record=rec)
 
     ctx.shards(hyp, shards)
 
 
 SUBCHECKS = [
     SubCheck("sb_32_11", oracle_code, drv_32, "single-burst (32,11): all 2^11 messages x both parities: reference codeword, rows/columns, round trip, re-encoding"),
-    SubCheck("cach_68_28", oracle_code, _drv_sampled("68_28", 125, 3200), "CACH short LC (68,28): basis + random messages: reference codeword, CRC-8 read-back, rows/columns, round trip, three-way re-encoding"),
-    SubCheck("emb_128_72", oracle_code, _drv_sampled("128_72", 125, 3200, _directed_128), "embedded LC (128,72): basis + checksum-directed + random messages: reference codeword, 5-bit checksum read-back, rows/columns, round trip, three-way re-encoding"),
+    SubCheck("cach_68_28", oracle_code, _drv_sampled("68_28", 1500, 13000), "CACH short LC (68,28): basis + random messages: reference codeword, CRC-8 read-back, rows/columns, round trip, three-way re-encoding"),
+    SubCheck("emb_128_72", oracle_code, _drv_sampled("128_72", 1500, 13000, _directed_128), "embedded LC (128,72): basis + checksum-directed + random messages: reference codeword, 5-bit checksum read-back, rows/columns, round trip, three-way re-encoding"),
     SubCheck("linearity", oracle_linearity, drv_linearity, "GF(2)-(affine) linearity of the encoders on random pairs; (128,72) residual confined to checksum-dependent positions"),
 ]
 PREDICATES = {}
